@@ -30,6 +30,7 @@ let value_of_token (t : string) : value =
   | 'u' -> VU32 (z_of_string r)
   | 's' -> if r = "-" then VStr [] else VStr (bytes_of_hex r)
   | 'b' -> VBool (r = "1")
+  | 'l' -> if r = "-" then VList [] else VList (List.map bytes_of_hex (String.split_on_char ':' r))
   | _ -> failwith "bad value"
 let token_of_value = function
   | VInt x -> "i" ^ string_of_z x
@@ -37,10 +38,13 @@ let token_of_value = function
   | VStr [] -> "s-"
   | VStr l -> "s" ^ hexs l
   | VBool b -> if b then "b1" else "b0"
+  | VList [] -> "l-"
+  | VList l -> "l" ^ String.concat ":" (List.map hexs l)
 let token_of_sval = function
   | SInt x -> "i" ^ string_of_z x
   | SStr l -> "s" ^ hexs l
   | SBool b -> if b then "b1" else "b0"
+  | SList l -> "l" ^ String.concat ":" (List.map hexs l)
 let show_store (s : store) : string =
   let es = List.map (fun (p, v) -> string_of_path p ^ "=" ^ token_of_sval v) s.leaves
            @ List.map (fun c -> string_of_path c ^ "/") s.conts in
@@ -80,7 +84,7 @@ let show_ev = function
   | EFrrReload -> "F:reload"
 let csv_nats (s : string) : nat list =
   if s = "-" then [] else List.map (fun x -> nat_of_int (int_of_string x)) (String.split_on_char ',' s)
-let kind_of = function "A" -> KAny | "I" -> KInt | "U" -> KU32 | "S" -> KStr | "B" -> KBool | "N" -> KInternal | _ -> failwith "kind"
+let kind_of = function "L" -> KList | "A" -> KAny | "I" -> KInt | "U" -> KU32 | "S" -> KStr | "B" -> KBool | "N" -> KInternal | _ -> failwith "kind"
 (* concurrent mode: search for a sequential order of the threads' operations that explains every
    observed result and the final state (linearizability w.r.t. the model) *)
 let run_conc (var : variant) reg g init_st (f : string array) (p0 : int) (impl : string) : string =
@@ -207,7 +211,7 @@ let run_case (var : variant) (line0 : string) (impl : string) : string =
                 let i = String.rindex e '=' in
                 let pth = path_of_string (String.sub e 0 i) and v = String.sub e (i + 1) (String.length e - i - 1) in
                 let sv = (match value_of_token v with
-                    | VInt z -> SInt z | VU32 z -> SInt z | VStr l -> SStr l | VBool b -> SBool b) in
+                    | VInt z -> SInt z | VU32 z -> SInt z | VStr l -> SStr l | VBool b -> SBool b | VList l -> SList l) in
                 lv := (pth, sv) :: !lv
               end
             end) es;
